@@ -540,6 +540,11 @@ class MailboxSet(MailboxSetInterface[MailboxData]):
         return '/'
 
     async def set_subscribed(self, name: str, subscribed: bool) -> None:
+        if subscribed and (name != name.strip() or not name
+                           or '\r' in name or '\n' in name):
+            # the subscriptions file holds one name per line: such a name
+            # would come back as different names
+            raise NotSupportedError()
         async with Subscriptions.with_write(self._path) as subs:
             subs.set(name, subscribed)
 
